@@ -550,6 +550,12 @@ pub fn run_val(c: &Case, op: &ValOp, stats: &mut Stats, scratch: &std::path::Pat
             "default-spliced-into-sql"
         } else if dflt {
             "float-default-inexact"
+        } else if c.fpos == "lit" && op.fl.as_deref().map_or(false, |t| {
+            let t = t.trim_start_matches('-');
+            !t.is_empty() && t.len() <= 16 && t.chars().all(|ch| ch.is_ascii_digit())
+        }) {
+            // an integer spelling below 10^16: the decimal text of its f64 is exact, nothing excuses a mismatch
+            "integer-literal-on-float-filter-mismatch"
         } else if c.fpos == "lit" {
             "float-literal-inexact"
         } else {
